@@ -64,6 +64,31 @@ func (server *SugarDB) raftApplyDeleteKey(ctx context.Context, key string) error
 	return nil
 }
 
+// raftEnqueueDeleteKey appends a delete-key entry to the raft log without waiting for it to be
+// applied. It is for callers that hold the store lock: the state machine needs that lock to apply
+// the entry, so waiting for the apply future there never returns. Entries are logged in call
+// order, so a later write that re-creates the key is applied after this deletion.
+func (server *SugarDB) raftEnqueueDeleteKey(ctx context.Context, key string) error {
+	serverId, _ := ctx.Value(internal.ContextServerID("ServerID")).(string)
+	protocol, _ := ctx.Value("Protocol").(int)
+	database, _ := ctx.Value("Database").(int)
+
+	b, err := json.Marshal(internal.ApplyRequest{
+		Type:         "delete-key",
+		ServerID:     serverId,
+		ConnectionID: "nil",
+		Protocol:     protocol,
+		Database:     database,
+		Key:          key,
+	})
+	if err != nil {
+		return fmt.Errorf("could not parse delete key request for key: %s", key)
+	}
+
+	server.raft.Apply(b, 500*time.Millisecond)
+	return nil
+}
+
 func (server *SugarDB) raftApplyCommand(ctx context.Context, cmd []string) ([]byte, error) {
 	serverId, _ := ctx.Value(internal.ContextServerID("ServerID")).(string)
 	connectionId, _ := ctx.Value(internal.ContextConnID("ConnectionID")).(string)
